@@ -52,6 +52,7 @@ type Ctx struct {
 	describe   func() string
 	transitions int
 	relates     []relate
+	counters    map[string]int64
 	// schedule/monitor data used by individual harnesses
 	Scratch map[string]interface{}
 }
@@ -157,6 +158,14 @@ func (c *Ctx) Witness(name string) {
 	c.witnesses[name]++
 }
 
+// Count adds n to a named counter reported in the evidence (e.g. abstract states of a BFS).
+func (c *Ctx) Count(name string, n int64) {
+	if c.counters == nil {
+		c.counters = map[string]int64{}
+	}
+	c.counters[name] += n
+}
+
 // Steps adds to the transition count (library-level steps taken in this execution).
 func (c *Ctx) Steps(n int) { c.transitions += n }
 
@@ -207,6 +216,7 @@ type Stats struct {
 	PerScenario  map[string]int64    `json:"per_scenario"`
 	TimedOut     bool                `json:"timed_out"`
 	Uncontrolled int64               `json:"uncontrolled_maps"`
+	Counters     map[string]int64    `json:"counters"`
 	Relations    map[string]map[[16]byte]*relEntry `json:"-"`
 	RelationPairs int64 `json:"relation_pairs"`
 }
@@ -214,7 +224,7 @@ type Stats struct {
 const setCap = 3000000
 
 func newStats() *Stats {
-	return &Stats{Witnesses: map[string]int64{}, Violations: map[string]*ViolationRec{},
+	return &Stats{Counters: map[string]int64{}, Witnesses: map[string]int64{}, Violations: map[string]*ViolationRec{},
 		Outcomes: map[uint64]struct{}{}, Inputs: map[uint64]struct{}{}, PerScenario: map[string]int64{},
 		Relations: map[string]map[[16]byte]*relEntry{}}
 }
@@ -233,6 +243,9 @@ func (s *Stats) merge(o *Stats) {
 	}
 	for k, v := range o.Witnesses {
 		s.Witnesses[k] += v
+	}
+	for k, v := range o.Counters {
+		s.Counters[k] += v
 	}
 	for k, v := range o.PerScenario {
 		s.PerScenario[k] += v
@@ -422,6 +435,9 @@ func (e *Explorer) account(sc *Scenario, c *Ctx, devs int) {
 		if v > 0 {
 			s.Witnesses[k]++
 		}
+	}
+	for k, v := range c.counters {
+		s.Counters[k] += v
 	}
 	if c.hasOutcome {
 		if len(s.Outcomes) < setCap {
